@@ -446,6 +446,15 @@ def main(run):
             if kind in ("pd", "pd2", "cut1") and pdn:
                 for nm in rng.sample(pdn, min(len(pdn), 1 if kind != "pd2" else rng.randint(2, 3))):
                     pars[nm + "_pd"] = rng.uniform(0.05, 0.5); pars[nm + "_pd_n"] = rng.randint(2, 7)
+                    # one mesh per definition goes beyond a single kernel invocation (the compiled path runs the
+                    # mesh in slices of 100 points and carries its running sums from one slice to the next)
+                    if m == 1 and kind in ("pd", "pd2"):
+                        first_ = not any(k_.endswith("_pd_n") and k_ != nm + "_pd_n" for k_ in pars)
+                        if kind == "pd":
+                            pars[nm + "_pd_n"] = rng.choice([101, 130, 257])
+                        else:
+                            pars[nm + "_pd_n"] = 41 if first_ else rng.choice([2, 3])
+                        stats["large_meshes"] = stats.get("large_meshes", 0) + int(first_)
                     pars[nm + "_pd_type"] = rng.choice(["gaussian", "rectangle", "schulz", "lognormal"]); pars[nm + "_pd_nsigma"] = rng.choice([2.0, 3.0])
                     if kind == "cut1":
                         pars[nm + "_pd"] = 1.0; pars[nm + "_pd_n"] = 2; pars[nm + "_pd_type"] = "gaussian"; pars[nm + "_pd_nsigma"] = 3.0
